@@ -212,6 +212,41 @@ theorem drain_fair_all {p : Par} {IA IB Rmax : Nat} (hIA : IA < 2 ^ 29) (hR : Rm
       rw [← run_append, ← he'] at this
       exact this
 
+/-- **the general drain from any state that satisfies the invariants**: one more millisecond for the
+first clock tick, at which B's queue is not full -/
+theorem drain_fair_any {p : Par} {IA IB Rmax : Nat} (hIA : IA < 2 ^ 29) (hR : Rmax + IA < 2 ^ 31) {s : State}
+    (hi : Inv p IA IB s) (hpi : PInv IA s) (ha : ArrOk s) (evs : List Ev) (hns : ∀ ev ∈ evs, isSend ev = false)
+    (hr : RunP (FairHyp p Rmax IA) s evs)
+    (hnow : s.now + 1 + s.A.waitSnd * (fairStage Rmax IA IB s.D + 2) ≤ (Sys.run s evs).now) :
+    (Sys.run s evs).A.waitSnd = 0 := by
+  obtain ⟨gab, gba, hc⟩ := hi.cons
+  obtain ⟨a, b, he, hqt, hτ⟩ := run_reaches_tick (s.now + 1) evs s (by omega) (by omega)
+  have he' : evs = (a ++ [Ev.tick]) ++ b := by rw [he, List.append_assoc]; rfl
+  obtain ⟨hr1, hr2⟩ := RunP.split (a ++ [Ev.tick]) b s (by rw [← he']; exact hr)
+  obtain ⟨hra, _⟩ := RunP.split a [Ev.tick] s hr1
+  have hPa := RunP.last a s hra
+  have hrun1 : Sys.run s (a ++ [Ev.tick]) = Sys.step (Sys.run s a) .tick := by rw [run_append]; rfl
+  have hnow1 : (Sys.run s (a ++ [Ev.tick])).now = s.now + 1 := by
+    rw [hrun1]
+    show (if quiet (Sys.run s a) then { (Sys.run s a) with now := (Sys.run s a).now + 1 } else (Sys.run s a)).now = _
+    rw [if_pos hqt]
+    exact hτ
+  have hns1 : ∀ ev ∈ a ++ [Ev.tick], isSend ev = false := fun ev hev => hns ev (by rw [he']; exact List.mem_append_left _ hev)
+  have hns2 : ∀ ev ∈ b, isSend ev = false := fun ev hev => hns ev (by rw [he']; exact List.mem_append_right _ hev)
+  have hnw1 := fair_noWrap (a ++ [Ev.tick]) s hr1
+  have hw1 := wait_run hc (a ++ [Ev.tick]) hnw1 hns1
+  have hm1 := una_mono_run (a ++ [Ev.tick]) s gab gba hc hnw1
+  obtain ⟨hi1, hpi1⟩ := inv_pinv_run (by omega) (a ++ [Ev.tick]) s hi hpi hnw1
+  have ha1 := arrOk_run (a ++ [Ev.tick]) s ha
+  have hq1 : (Sys.run s (a ++ [Ev.tick])).B.rcv_queue.length < (Sys.run s (a ++ [Ev.tick])).B.rcv_wnd.toNat := by
+    rw [hrun1, tick_B]
+    exact hPa.2.2.1 (quiet_peek _ hqt)
+  have hD1 : (Sys.run s (a ++ [Ev.tick])).D = s.D := run_D _ s
+  have := drain_fair_all hIA hR s.A.waitSnd (Sys.run s (a ++ [Ev.tick])) hi1 hpi1 ha1 hq1 (by omega) b hns2 hr2 (by
+    rw [hD1, hnow1, ← run_append, ← he']; omega)
+  rw [← run_append, ← he'] at this
+  exact this
+
 theorem full_fair {p : Par} {Rmax IA : Nat} (s : State) (h : FullHyp p Rmax IA s) : FairHyp p Rmax IA s :=
   ⟨h.1, ⟨by have := h.2.1.1; omega, h.2.1.2⟩, fun _ => h.2.1.1, h.2.2.1, h.2.2.2⟩
 
